@@ -1,6 +1,19 @@
 """Per-property manifest entries. Only properties with a working check appear in CHECKS."""
 
 CHECKS = {
+    "C09": {
+        "level": "exploration",
+        "technique": "exhaustive URI-spelling sweep + hypothesis URIs; containment oracle (realpath), secret-marker scan, sys audit hook on opens/creates",
+        "text": ("Every URI of <=3 (quick) / <=4 (thorough) segments over 11 segment kinds x separator per gap (/ // \\) x 6 leading x 2 "
+                 "trailing spellings, plus 'climb' and absolute-path families and hypothesis-drawn URIs of <=8 segments, is used directly "
+                 "(get_template / has_template) and from calling templates at depth 0..3 through <%include>, <%inherit>, <%namespace> "
+                 "(name / import), get_namespace, get_template and include_file, under module_directory on/off, one or two roots and 7 root "
+                 "spellings. Either TemplateLookupException is raised or the returned template's realpath lies inside a configured root; "
+                 "no output or source contains the secret marker that every outside file carries; an audit hook sees no open of an outside "
+                 "file and no create/rename outside the module directory (and blocks such writes). The bounded URI space is swept completely."),
+        "note": ("POSIX only; symlinks and drive letters not generated; the empty URI is not sent through calling templates "
+                 "(adjust_uri('') raises IndexError, outside the statement). Trusted: os.path.realpath, the audit hook."),
+    },
     "C16": {
         "level": "exploration",
         "technique": "harness-owned deterministic thread scheduler: exhaustive DFS over coarse scheduling points + hypothesis-drawn line-level preemption schedules",
